@@ -106,6 +106,28 @@ Definition show_token (t : token) : bytes :=
 
 Definition show_tokens (ts : list token) : bytes := join [32] (map show_token ts).
 
+(* ProgramLines::list spells a number that directly follows a symbol with its
+   leading decimal point (".5", ".0"): blanks are ignored on reload, so a digit
+   after a symbol would be read back as part of its name. *)
+Definition show_number_after_symbol (x : f64) : bytes :=
+  match show_f64 x with
+  | 48 :: 46 :: r => 46 :: r
+  | [48] => [46; 48]
+  | other => other
+  end.
+
+Fixpoint show_tokens_listing (prev_symbol : bool) (ts : list token) : list bytes :=
+  match ts with
+  | [] => []
+  | t :: r =>
+      (match t with
+       | TNumber x => if prev_symbol then show_number_after_symbol x else show_token t
+       | _ => show_token t
+       end) :: show_tokens_listing (match t with TSymbol _ => true | _ => false end) r
+  end.
+
+Definition show_listing (ts : list token) : bytes := join [32] (show_tokens_listing false ts).
+
 (* ProgramLines::list (program_lines.rs:86-100) *)
 Fixpoint list_lines (keys : list N) (toks : list (N * list token)) : res (list bytes) :=
   match keys with
@@ -115,7 +137,7 @@ Fixpoint list_lines (keys : list N) (toks : list (N * list token)) : res (list b
       | None => Panic PListUnwrap
       | Some ts =>
           match list_lines r toks with
-          | Ok ls => Ok ((show_N n ++ [32] ++ show_tokens ts ++ [10]) :: ls)
+          | Ok ls => Ok ((show_N n ++ [32] ++ show_listing ts ++ [10]) :: ls)
           | other => other
           end
       end
